@@ -8,7 +8,7 @@ from .core.effects import provenance
 from .persistord import check_atomic_replace
 
 RULES = {
-    "C17.1": "must-reach (call graph + only-allowed-bypass): the marker store's durable write (CleanMarkerStore::persist_map, the only body that renames the marker file) is reached "
+    "C17.1": "every update handed to CleanMarkerStore::persist_updates is merged into the map that is written (no branch of the merge loop skips the insert); must-reach (call graph + only-allowed-bypass): the marker store's durable write (CleanMarkerStore::persist_map, the only body that renames the marker file) is reached "
              "synchronously either by every state change (update_state) or by a clean shutdown: an `impl Drop` of Walrus (or of the tracker) whose drop reaches persist_map on all "
              "paths - the only allowed bypasses being a poisoned lock and `nothing to persist` (empty update list) - with a snapshot built from an iteration over ALL tracked states",
     "C17.2": "state discipline: both append APIs call mark_topic_dirty on every path before anything else can fail; mark_clean/mark_dirty pass the constants true/false; "
@@ -146,6 +146,34 @@ def check_durable_marker(ctx, facts):
                             "the flush reached from Drop does not persist a snapshot of all tracked topic states")
 
 
+def check_updates_applied(ctx, facts):
+    """persist_updates: every update handed in is inserted into the map that is then written."""
+    b = facts.body("topic_clean::CleanMarkerStore::persist_updates")
+    ctx.saw_body(b)
+    F = common.short_fn(b.name)
+    ins = b.calls(re.compile(r"HashMap.*::insert$"))
+    pm = b.calls(re.compile(r"CleanMarkerStore::persist_map$"))
+    if not ins or not pm:
+        ctx.anchor_missing("C17.1", "insert / persist_map in " + F)
+        return
+    ok = False
+    for c in ins:
+        hb, L = b.enclosing_loop(c.bb)
+        if L is None:
+            continue
+        if b.iteration_can_skip(hb, L, c.bb):
+            ctx.violate("C17.1", F, "update-dropped-before-persist", b.relfile, c.line,
+                        "the loop that merges the updates into the marker map can skip an update (a branch inside the loop bypasses the insert): the state that is then written - "
+                        "or kept, if nothing else changed - is not the latest one for that topic")
+            return
+        if all(b.dominates(hb, p_.bb) and p_.bb not in L for p_ in pm):
+            ok = True
+    if ok:
+        ctx.ok("C17.1", F, "every update is inserted into the map before it is persisted", b.relfile, ins[0].line)
+    else:
+        ctx.violate("C17.1", F, "updates-not-merged-before-persist", b.relfile, b.line, "persist_map is not preceded by the loop that merges the updates")
+
+
 def check_state_discipline(ctx, facts):
     for fn in ("walrus_write::append_for_topic", "walrus_write::batch_append_for_topic"):
         b = facts.body(fn)
@@ -223,6 +251,7 @@ def run(ctx):
         ctx.rule(k, v)
     facts = common.mir(ctx, "walrus_rust")
     check_durable_marker(ctx, facts)
+    check_updates_applied(ctx, facts)
     check_state_discipline(ctx, facts)
     check_atomic_replace(ctx, "C17.3", "C17.3", facts, PM)
     ctx.assume("'clean shutdown' = the Walrus value is dropped (process exit without drop is a crash, outside this property)")
